@@ -435,6 +435,8 @@ func runC08(w *World, r *Report) {
 	// "alias spellings": the value that is checked against an option's list is the value that is stored - a check that accepts
 	// `uint8` because it normalises first, in front of a store of the text as written, lets a spelling through that no type table knows
 	c12OptionValidation(w, r, "C08")
+	// "prefixed versus inline attribute placement": a type written in the declaration decides, in both spellings
+	metadataByTypeNotByName(w, r, "C08")
 	inlineObjectKeepsItsPacket(w, r, "C08") // "a MetaData-typed field versus the inlined type", names are not meanings: an inline object is its body
 	// "a key list versus its expanded pairs": every key, written alone or in a list, becomes a pair whose key is the text of its own
 	// token - a spelling rewritten on one of the two routes (leading zeros stripped for `01 : A` but not for `[01] : A`) makes the
